@@ -1696,7 +1696,8 @@ async fn run_async(scn: &Scenario, chooser: &mut dyn Chooser) -> Result<Trace, S
         if round >= 3 {
             // after a fault the loop may sit in its re-idle window before it runs into the fault
             let waiting_for_exit = w.fault.is_some() && !w.sh().io_dropped && round < 30;
-            if !w.strict_tick() && !waiting_for_exit {
+            // (a client whose loop has ended - transport dropped - will not write anything any more)
+            if (!w.strict_tick() || w.sh().io_dropped) && !waiting_for_exit {
                 break;
             }
         }
